@@ -276,7 +276,13 @@ def r14_5_write_coverage(ctx, prog, rule="R14.5"):
         for pa in paths:
             r = C.expr_of(pa, pa.ret)
             if isinstance(r, tuple) and r[0] == "Result::Ok":
-                vals.add(r[1] if isinstance(r[1], int) else None)
+                v_ = r[1]
+                if not isinstance(v_, int):
+                    # `Ok(bytes.len())` with bytes = x.to_be_bytes(): a constant once lengths are evaluated
+                    from .. import linproof as LP_
+                    d_ = LP_.Lin().lin(v_)
+                    v_ = int(d_.get(1, 0)) if all(k_ == 1 for k_ in d_) else None
+                vals.add(v_)
             elif not (isinstance(r, tuple) and r[0] == "Result::Err"):
                 vals.add(None)
         if len(vals) == 1 and None not in vals:
